@@ -535,6 +535,9 @@ def check(case):
     if all(T.node[b] in slack_nodes for b in T.buses) and (net.ext_grid.va_degree.values != 0).any():
         res.skipped = "pf-bypass-drops-slack-angles"
         return res
+    if any(not 0.5 <= float(net.res_bus.vm_pu.at[b]) <= 1.5 for b in T.buses):
+        res.skipped = "pf-degenerate-solution"       # collapsed low-voltage solution of the power flow (vm ~ 0): no meaningful truth
+        return res
     rows, info = build_rows(net, T, plan, opt, res)
     base = copy.deepcopy(net)           # solved network without measurements
     sab = bool(plan["side_as_bus"])
